@@ -1,43 +1,14 @@
 /-
-`driver`: reads harness lines on stdin, evaluates model + spec oracle (see
-X86Model/Driver/Proto.lean). The handler chain tries each property family in turn.
+`driver`: the model driver with the third voice (definitions generated from the Rust source, Driver/Src.lean).
 -/
-import X86Model.Driver.Proto
-import X86Model.Driver.Addr
-import X86Model.Driver.Consts
-import X86Model.Driver.Mapper
-import X86Model.Driver.Entry
-import X86Model.Driver.Gdt
-import X86Model.Driver.Port
-import X86Model.Driver.Interrupts
-import X86Model.Driver.Regs
-import X86Model.Driver.Tlb
-import X86Model.Driver.Recursive
-import X86Model.Driver.Idt
-import X86Model.Driver.GeneralHandler
+import X86Model.Driver.Main
 import X86Model.Driver.Src
 
 open X86 X86.Driver
 
-/-- Driver state carried from line to line. -/
-structure DState where
-  mapper : MState := {}
+/-- Switched off while some function is outside the translator's subset: its stub would only add noise; the broken
+tie is reported by run.py. -/
+def srcVoice : SrcVoice := fun cfg op a =>
+  if Generated.Src.untranslated.isEmpty then srcOut cfg op a else none
 
-def statelessHandlers : List Handler := [handleC03, handleC04, handleC05, handleC06, handleC07, handleC19, handleC08, handleC15, handleC14, handleC18, handleC17, handleC16, handleC11, handleC20, handleC12, handleC13]
-
-def dispatch : SHandler DState := fun cfg op a impl st =>
-  match statelessHandlers.firstM (fun h => h cfg op a impl) with
-  | some v =>
-    -- third voice: the definitions generated from the Rust source (translator/gen_fns.py) on the same line
-    -- (switched off while some function is outside the translator's subset: its stub would only add noise;
-    -- the broken tie is reported by run.py);
-    -- a difference from the implementation is reported as a disagreement whose model output starts with `src`
-    match (if Generated.Src.untranslated.isEmpty then srcOut cfg op a else none) with
-    | some t => if t != impl && v.model == impl then some ({ v with model := "src" :: t }, st) else some (v, st)
-    | none => some (v, st)
-  | none =>
-    match handleMapper cfg op a impl st.mapper with
-    | some (v, m) => some (v, { st with mapper := m })
-    | none => none
-
-def main (_args : List String) : IO UInt32 := run dispatch ({} : DState)
+def main (_args : List String) : IO UInt32 := mainWith srcVoice
